@@ -29,29 +29,33 @@ def liftRes (version : Nat) (body : Bytes) : Res (Packet × Bytes) → Step
   | .panic => .panic
   | .overflow => .overflow
 
+/-- the `match version { 5 => …, 7 => …, 9 => …, 10 => …, _ => UnknownVersion }` arms, by the
+    parser the arm dispatches to (`kind`) -/
+def parseVersioned (c : Config) (st : PState) (kind : Nat) (body : Bytes) : PState × Step :=
+  if kind = 5 then
+    match parseFixed c c.t.v5Hdr c.t.v5Rec body with
+    | some ((h, rs), r) => (st, .ok (.v5 h rs) r)
+    | none => (st, .fail (.partialParse 5 body))
+  else if kind = 7 then
+    match parseFixed c c.t.v7Hdr c.t.v7Rec body with
+    | some ((h, rs), r) => (st, .ok (.v7 h rs) r)
+    | none => (st, .fail (.partialParse 7 body))
+  else if kind = 9 then
+    ((parseV9 c st body).1, liftRes 9 body (parseV9 c st body).2)
+  else if kind = 10 then
+    ((parseIpfix c st body).1, liftRes 10 body (parseIpfix c st body).2)
+  else (st, .fail (.unknownVersion body))
+
 /-- `NetflowParser::parse_packet_by_version` -/
 def parsePacket (c : Config) (st : PState) (buf : Bytes) : PState × Step :=
   match beU 2 buf with
   | none => (st, .fail .incomplete)
   | some (version, body) =>
-    if !c.allowed.contains version then (st, .unallowed)
-    else
+    if c.allowed.contains version then
       match c.t.dispatch.lookup version with
-      | some 5 =>
-        match parseFixed c c.t.v5Hdr c.t.v5Rec body with
-        | some ((h, rs), r) => (st, .ok (.v5 h rs) r)
-        | none => (st, .fail (.partialParse 5 body))
-      | some 7 =>
-        match parseFixed c c.t.v7Hdr c.t.v7Rec body with
-        | some ((h, rs), r) => (st, .ok (.v7 h rs) r)
-        | none => (st, .fail (.partialParse 7 body))
-      | some 9 =>
-        match parseV9 c st body with
-        | (st', res) => (st', liftRes 9 body res)
-      | some 10 =>
-        match parseIpfix c st body with
-        | (st', res) => (st', liftRes 10 body res)
-      | _ => (st, .fail (.unknownVersion body))
+      | some kind => parseVersioned c st kind body
+      | none => (st, .fail (.unknownVersion body))
+    else (st, .unallowed)
 
 /-- result of `parse_bytes` -/
 inductive Outcome where
